@@ -381,6 +381,9 @@ func runC15(rc *RunCtx) {
 	if sc.ReadTimeout > 0 {
 		rc.Fault("server_read_timeouts_between_fragments", true)
 	}
+	if out.Hang || out.OverStep {
+		rc.Violate("hang", "server_run", "the run did not come to an end: hang=%v (nothing can make progress), overstep=%v (step budget exhausted: something polls without end)", out.Hang, out.OverStep)
+	}
 	if out.HeldBad != "" {
 		rc.Violate("request_changed_after_handling", "handler_kept_request", "%s", out.HeldBad)
 	}
